@@ -196,7 +196,7 @@ theorem inv_of_begin {cfg : Cfg} {L : State} (hb : BeginSent cfg L) :
   have := Inv.begin L [] L.c2s hb (by rw [hb.q1]; rfl) (by simp)
   rw [partS_nil L hb.srv.base.buf] at this
   refine ⟨_, ?_, this⟩
-  rw [hb.q1]; simp [lBEGIN]; omega
+  rw [hb.q1]; simp [lBEGIN]
 
 theorem inv_of_next {cfg : Cfg} (hyp : Hyp cfg) {r : Nat} {st : State} (h : Next cfg r st) :
     ∃ n, n ≤ r * W + (cfg.hello.length + 8) + 16386 ∧ Inv cfg n st := by
@@ -227,7 +227,7 @@ theorem init_phase (cfg : Cfg) : Phase cfg 13 (init cfg) ∧ (init cfg).s = Auth
     simp [wireC, this]
   exact ⟨Phase.start _ hc rfl hq rfl, rfl, hq, rfl, hc⟩
 
-theorem inv_init (cfg : Cfg) : Inv cfg (init cfg) := by
+theorem inv_init (cfg : Cfg) : Inv cfg (14 * W + (cfg.hello.length + 8) + 16) (init cfg) := by
   obtain ⟨hp, hs, q1, q2, hc⟩ := init_phase cfg
   exact Inv.start _ hp hs q1 q2 hc
 
@@ -343,66 +343,105 @@ theorem feedS_done {cfg : Cfg} {st : State} (hd : Done cfg st) (y z : Bytes) (h 
   · show st.s2c ++ wireS (st.s.sent.drop st.s.sent.length) = []
     rw [hd.q2]; simp [wireS]
 
-/-- Every move keeps the invariant. -/
-theorem inv_step {cfg : Cfg} (hyp : Hyp cfg) {st : State} (hi : Inv cfg st) (m : Move) : Inv cfg (step cfg st m) := by
+/-- The move delivers at least one byte. -/
+def effective (st : State) : Move → Bool
+  | .toServer _ => !st.c2s.isEmpty
+  | .toClient _ => !st.s2c.isEmpty
+
+/-- Every move keeps the invariant; a move that delivers at least one byte makes the measure smaller, any other
+move changes nothing. -/
+theorem inv_step {cfg : Cfg} (hyp : Hyp cfg) {n : Nat} {st : State} (hi : Inv cfg n st) (m : Move) :
+    ∃ n', Inv cfg n' (step cfg st m) ∧ n' ≤ n ∧ (effective st m = true → n' < n) := by
+  have hW : 16386 < W := by decide
   cases hi with
   | midS r L l x rest hp hf h hr =>
     cases m with
     | toClient n =>
-      show Inv cfg (toClient cfg n (partS L x rest))
-      rw [toClient_nil n (show (partS L x rest).s2c = [] from hf.q2)]
-      exact Inv.midS r L l x rest hp hf h hr
+      refine ⟨_, ?_, Nat.le_refl _, fun he => ?_⟩
+      · show Inv cfg _ (toClient cfg n (partS L x rest))
+        rw [toClient_nil n (show (partS L x rest).s2c = [] from hf.q2)]
+        exact Inv.midS r L l x rest hp hf h hr
+      · have : (partS L x rest).s2c = [] := hf.q2
+        simp [effective, this] at he
     | toServer n =>
-      show Inv cfg (toServer n (partS L x rest))
+      show ∃ n', Inv cfg n' (toServer n (partS L x rest)) ∧ _
       rw [toServer_eq n (show (partS L x rest).c2s ≠ [] from hr)]
-      show Inv cfg (feedS (partS L x rest) (rest.take (n + 1)) (rest.drop (n + 1)))
+      show ∃ n', Inv cfg n' (feedS (partS L x rest) (rest.take (n + 1)) (rest.drop (n + 1))) ∧ _
       have hsplit : rest = rest.take (n + 1) ++ rest.drop (n + 1) := (List.take_append_drop _ _).symm
-      generalize rest.take (n + 1) = y at hsplit
+      have hy : rest.take (n + 1) ≠ [] := by
+        cases rest with
+        | nil => exact absurd rfl hr
+        | cons a t => simp
+      generalize rest.take (n + 1) = y at hsplit hy
       generalize rest.drop (n + 1) = z at hsplit
       subst hsplit
+      have hylen : y.length ≥ 1 := by cases y with
+        | nil => exact absurd rfl hy
+        | cons _ _ => simp
       rw [feedS_partS hf x y z h]
       by_cases hz : z = []
       · simp only [hz, if_true]
         rw [← lstep_toS (cfg := cfg) hf.q1]
-        exact inv_of_next hyp (phase_next hyp hp)
+        obtain ⟨n', hn', hi'⟩ := inv_of_next hyp (phase_next hyp hp)
+        refine ⟨n', hi', ?_, fun _ => ?_⟩ <;> (simp only [List.length_append]; have e : (r + 1) * W = r * W + W := (by rw [Nat.add_mul, Nat.one_mul]); omega)
       · simp only [hz, if_false]
-        exact Inv.midS r L l (x ++ y) z hp hf (by simpa using h) hz
+        refine ⟨_, Inv.midS r L l (x ++ y) z hp hf (by simpa using h) hz, ?_, fun _ => ?_⟩ <;>
+          (simp only [List.length_append]; omega)
   | midC r L l x rest hp hf h hr =>
     cases m with
     | toServer n =>
-      show Inv cfg (toServer n (partC L x rest))
-      rw [toServer_nil n (show (partC L x rest).c2s = [] from hf.q2)]
-      exact Inv.midC r L l x rest hp hf h hr
+      refine ⟨_, ?_, Nat.le_refl _, fun he => ?_⟩
+      · show Inv cfg _ (toServer n (partC L x rest))
+        rw [toServer_nil n (show (partC L x rest).c2s = [] from hf.q2)]
+        exact Inv.midC r L l x rest hp hf h hr
+      · have : (partC L x rest).c2s = [] := hf.q2
+        simp [effective, this] at he
     | toClient n =>
-      show Inv cfg (toClient cfg n (partC L x rest))
+      show ∃ n', Inv cfg n' (toClient cfg n (partC L x rest)) ∧ _
       rw [toClient_eq n (show (partC L x rest).s2c ≠ [] from hr)]
-      show Inv cfg (feedC cfg (partC L x rest) (rest.take (n + 1)) (rest.drop (n + 1)))
+      show ∃ n', Inv cfg n' (feedC cfg (partC L x rest) (rest.take (n + 1)) (rest.drop (n + 1))) ∧ _
       have hsplit : rest = rest.take (n + 1) ++ rest.drop (n + 1) := (List.take_append_drop _ _).symm
-      generalize rest.take (n + 1) = y at hsplit
+      have hy : rest.take (n + 1) ≠ [] := by
+        cases rest with
+        | nil => exact absurd rfl hr
+        | cons a t => simp
+      generalize rest.take (n + 1) = y at hsplit hy
       generalize rest.drop (n + 1) = z at hsplit
       subst hsplit
+      have hylen : y.length ≥ 1 := by cases y with
+        | nil => exact absurd rfl hy
+        | cons _ _ => simp
       rw [feedC_partC hf x y z h]
       by_cases hz : z = []
       · simp only [hz, if_true]
         rw [← lstep_toC (cfg := cfg) hf.q2]
-        exact inv_of_next hyp (phase_next hyp hp)
+        obtain ⟨n', hn', hi'⟩ := inv_of_next hyp (phase_next hyp hp)
+        refine ⟨n', hi', ?_, fun _ => ?_⟩ <;> (simp only [List.length_append]; have e : (r + 1) * W = r * W + W := (by rw [Nat.add_mul, Nat.one_mul]); omega)
       · simp only [hz, if_false]
-        exact Inv.midC r L l (x ++ y) z hp hf (by simpa using h) hz
+        refine ⟨_, Inv.midC r L l (x ++ y) z hp hf (by simpa using h) hz, ?_, fun _ => ?_⟩ <;>
+          (simp only [List.length_append]; omega)
   | start _ hp hs q1 q2 hc =>
     cases m with
     | toClient n =>
-      show Inv cfg (toClient cfg n st)
-      rw [toClient_nil n q2]
-      exact Inv.start st hp hs q1 q2 hc
+      refine ⟨_, ?_, Nat.le_refl _, fun he => ?_⟩
+      · show Inv cfg _ (toClient cfg n st)
+        rw [toClient_nil n q2]
+        exact Inv.start st hp hs q1 q2 hc
+      · simp [effective, q2] at he
     | toServer n =>
-      show Inv cfg (toServer n st)
+      show ∃ n', Inv cfg n' (toServer n st) ∧ _
       rw [toServer_eq n (by rw [q1]; simp), q1]
-      show Inv cfg (feedS st (0 :: (lit "AUTH EXTERNAL" ++ [13, 10]).take n) ((lit "AUTH EXTERNAL" ++ [13, 10]).drop n))
+      show ∃ n', Inv cfg n' (feedS st (0 :: (lit "AUTH EXTERNAL" ++ [13, 10]).take n) ((lit "AUTH EXTERNAL" ++ [13, 10]).drop n)) ∧ _
       have hsplit : (lit "AUTH EXTERNAL" ++ [13, 10] : Bytes) =
           (lit "AUTH EXTERNAL" ++ [13, 10]).take n ++ (lit "AUTH EXTERNAL" ++ [13, 10]).drop n :=
         (List.take_append_drop _ _).symm
       generalize (lit "AUTH EXTERNAL" ++ [13, 10] : Bytes).take n = y at hsplit
       generalize (lit "AUTH EXTERNAL" ++ [13, 10] : Bytes).drop n = z at hsplit
+      have hlen15 : y.length + z.length = 15 := by
+        have := congrArg List.length hsplit
+        have h15 : (lit "AUTH EXTERNAL" ++ [13, 10] : Bytes).length = 15 := by decide
+        rw [h15, List.length_append] at this
+        omega
       rw [feedS_nul st hs]
       have hp' := nulRead_phase st hc hs q1 q2
       have hq' : (nulRead st).c2s = lit "AUTH EXTERNAL" ++ [13, 10] := by show st.c2s.tail = _; rw [q1]; rfl
@@ -412,7 +451,10 @@ theorem inv_step {cfg : Cfg} (hyp : Hyp cfg) {st : State} (hi : Inv cfg st) (m :
         · simp only [hy, if_true]
           have hz : z = (nulRead st).c2s := by rw [hq', hsplit, hy]; rfl
           rw [hz]
-          exact inv_of_phase hyp hp'
+          have hi' := Inv.midS 12 (nulRead st) l [] (nulRead st).c2s hp' hf (by rw [hf.q1]; rfl) (by rw [hf.q1]; simp)
+          rw [partS_nil _ hf.base.buf] at hi'
+          have hlen : (nulRead st).c2s.length = 15 := by rw [hq']; decide
+          refine ⟨_, hi', ?_, fun _ => ?_⟩ <;> (rw [hlen]; omega)
         · simp only [hy, if_false]
           have hpart : nulRead st = partS (nulRead st) [] (y ++ z) := by
             rw [← hl, ← hf.q1, partS_nil _ hf.base.buf]
@@ -420,9 +462,11 @@ theorem inv_step {cfg : Cfg} (hyp : Hyp cfg) {st : State} (hi : Inv cfg st) (m :
           by_cases hz : z = []
           · simp only [hz, if_true]
             rw [← lstep_toS (cfg := cfg) hf.q1]
-            exact inv_of_next hyp (phase_next hyp hp')
+            obtain ⟨n', hn', hi'⟩ := inv_of_next hyp (phase_next hyp hp')
+            refine ⟨n', hi', ?_, fun _ => ?_⟩ <;> omega
           · simp only [hz, if_false]
-            exact Inv.midS 12 (nulRead st) l ([] ++ y) z hp' hf (by simpa using hl.symm) hz
+            refine ⟨_, Inv.midS 12 (nulRead st) l ([] ++ y) z hp' hf (by simpa using hl.symm) hz, ?_, fun _ => ?_⟩ <;>
+              omega
       · exfalso
         have := hf.q2
         rw [hq'] at this
@@ -434,9 +478,12 @@ theorem inv_step {cfg : Cfg} (hyp : Hyp cfg) {st : State} (hi : Inv cfg st) (m :
   | begin L x rest hb h hx =>
     cases m with
     | toClient n =>
-      show Inv cfg (toClient cfg n (partS L x rest))
-      rw [toClient_nil n (show (partS L x rest).s2c = [] from hb.q2)]
-      exact Inv.begin L x rest hb h hx
+      refine ⟨_, ?_, Nat.le_refl _, fun he => ?_⟩
+      · show Inv cfg _ (toClient cfg n (partS L x rest))
+        rw [toClient_nil n (show (partS L x rest).s2c = [] from hb.q2)]
+        exact Inv.begin L x rest hb h hx
+      · have : (partS L x rest).s2c = [] := hb.q2
+        simp [effective, this] at he
     | toServer n =>
       have hr : rest ≠ [] := by
         intro h0
@@ -444,29 +491,47 @@ theorem inv_step {cfg : Cfg} (hyp : Hyp cfg) {st : State} (hi : Inv cfg st) (m :
         have := congrArg List.length h
         simp [lBEGIN] at this
         omega
-      show Inv cfg (toServer n (partS L x rest))
+      show ∃ n', Inv cfg n' (toServer n (partS L x rest)) ∧ _
       rw [toServer_eq n (show (partS L x rest).c2s ≠ [] from hr)]
-      show Inv cfg (feedS (partS L x rest) (rest.take (n + 1)) (rest.drop (n + 1)))
+      show ∃ n', Inv cfg n' (feedS (partS L x rest) (rest.take (n + 1)) (rest.drop (n + 1))) ∧ _
       have hsplit : rest = rest.take (n + 1) ++ rest.drop (n + 1) := (List.take_append_drop _ _).symm
-      generalize rest.take (n + 1) = y at hsplit
+      have hy : rest.take (n + 1) ≠ [] := by
+        cases rest with
+        | nil => exact absurd rfl hr
+        | cons a t => simp
+      generalize rest.take (n + 1) = y at hsplit hy
       generalize rest.drop (n + 1) = z at hsplit
       subst hsplit
+      have hylen : y.length ≥ 1 := by cases y with
+        | nil => exact absurd rfl hy
+        | cons _ _ => simp
       rcases feedS_begin hb x y z h hx with ⟨hlen, heq⟩ | hd
       · rw [heq]
-        exact Inv.begin L (x ++ y) z hb (by simpa using h) hlen
-      · exact Inv.done _ hd
+        refine ⟨_, Inv.begin L (x ++ y) z hb (by simpa using h) hlen, ?_, fun _ => ?_⟩ <;>
+          (simp only [List.length_append]; omega)
+      · have hc2s : (feedS (partS L x (y ++ z)) y z).c2s = z := rfl
+        refine ⟨_, Inv.done _ hd, ?_, fun _ => ?_⟩ <;> (rw [hc2s]; simp only [List.length_append]; omega)
   | done _ hd =>
     cases m with
     | toClient n =>
-      show Inv cfg (toClient cfg n st)
-      rw [toClient_nil n hd.q2]
-      exact Inv.done st hd
+      refine ⟨_, ?_, Nat.le_refl _, fun he => ?_⟩
+      · show Inv cfg _ (toClient cfg n st)
+        rw [toClient_nil n hd.q2]
+        exact Inv.done st hd
+      · simp [effective, hd.q2] at he
     | toServer n =>
-      show Inv cfg (toServer n st)
+      show ∃ n', Inv cfg n' (toServer n st) ∧ _
       by_cases hq : st.c2s = []
-      · rw [toServer_nil n hq]; exact Inv.done st hd
+      · rw [toServer_nil n hq]
+        exact ⟨_, Inv.done st hd, Nat.le_refl _, fun he => by simp [effective, hq] at he⟩
       · rw [toServer_eq n hq]
-        exact Inv.done _ (feedS_done hd _ _ (List.take_append_drop _ _).symm)
+        have hc2s : (feedS st (st.c2s.take (n + 1)) (st.c2s.drop (n + 1))).c2s = st.c2s.drop (n + 1) := rfl
+        refine ⟨_, Inv.done _ (feedS_done hd _ _ (List.take_append_drop _ _).symm), ?_, fun _ => ?_⟩ <;>
+          (rw [hc2s, List.length_drop]; have : st.c2s.length ≥ 1 := by
+            cases hc : st.c2s with
+            | nil => exact absurd hc hq
+            | cons _ _ => simp
+           omega)
 
 /-! ## reachable states, schedules -/
 
@@ -475,20 +540,26 @@ inductive Reach (cfg : Cfg) : State → Prop
   | init : Reach cfg (init cfg)
   | step (st : State) (m : Move) (h : Reach cfg st) : Reach cfg (step cfg st m)
 
-theorem reach_inv {cfg : Cfg} (hyp : Hyp cfg) {st : State} (h : Reach cfg st) : Inv cfg st := by
+theorem reach_inv {cfg : Cfg} (hyp : Hyp cfg) {st : State} (h : Reach cfg st) : ∃ n, Inv cfg n st := by
   induction h with
-  | init => exact inv_init cfg
-  | step st m _ ih => exact inv_step hyp ih m
+  | init => exact ⟨_, inv_init cfg⟩
+  | step st m _ ih =>
+    obtain ⟨n, hi⟩ := ih
+    obtain ⟨n', hi', _⟩ := inv_step hyp hi m
+    exact ⟨n', hi'⟩
 
 theorem reach_run {cfg : Cfg} {st : State} (h : Reach cfg st) (ms : List Move) : Reach cfg (run cfg st ms) := by
   induction ms generalizing st with
   | nil => exact h
   | cons m t ih => exact ih (Reach.step st m h)
 
-theorem inv_run {cfg : Cfg} (hyp : Hyp cfg) {st : State} (h : Inv cfg st) (ms : List Move) : Inv cfg (run cfg st ms) := by
-  induction ms generalizing st with
-  | nil => exact h
-  | cons m t ih => exact ih (inv_step hyp h m)
+theorem inv_run {cfg : Cfg} (hyp : Hyp cfg) {n : Nat} {st : State} (h : Inv cfg n st) (ms : List Move) :
+    ∃ n', Inv cfg n' (run cfg st ms) := by
+  induction ms generalizing st n with
+  | nil => exact ⟨n, h⟩
+  | cons m t ih =>
+    obtain ⟨n', hi', _⟩ := inv_step hyp h m
+    exact ih hi'
 
 /-- Reachable = the result of a schedule. -/
 theorem reach_iff_run {cfg : Cfg} {st : State} : Reach cfg st ↔ ∃ ms, st = run cfg (init cfg) ms := by
@@ -507,7 +578,7 @@ theorem reach_iff_run {cfg : Cfg} {st : State} : Reach cfg st ↔ ∃ ms, st = r
 theorem begin_len (hello : Bytes) : (lBEGIN ++ 13 :: 10 :: hello).length = 7 + hello.length := by
   simp [lBEGIN]; omega
 
-theorem inv_quiescent {cfg : Cfg} {st : State} (hi : Inv cfg st) (hq : st.quiescent = true) :
+theorem inv_quiescent {cfg : Cfg} {n : Nat} {st : State} (hi : Inv cfg n st) (hq : st.quiescent = true) :
     Done cfg st ∧ st.c2s = [] := by
   have hq' : st.c2s = [] ∧ st.s2c = [] := by
     unfold State.quiescent at hq
@@ -605,7 +676,7 @@ theorem phase_progress {cfg : Cfg} (hyp : Hyp cfg) :
       exact this
 
 /-- From every state satisfying the invariant a schedule leads to a state where nothing is in flight. -/
-theorem inv_progress {cfg : Cfg} (hyp : Hyp cfg) {st : State} (hi : Inv cfg st) :
+theorem inv_progress {cfg : Cfg} (hyp : Hyp cfg) {n : Nat} {st : State} (hi : Inv cfg n st) :
     ∃ ms, (run cfg st ms).quiescent = true := by
   cases hi with
   | midS r L l x rest hp hf h hr =>
@@ -710,7 +781,7 @@ structure Safe (cfg : Cfg) (st : State) : Prop where
   the Hello call: no byte of it was read as a line, none was lost -/
   binary_mode : st.s.authenticated = true → st.s.binary ++ st.c2s = cfg.hello
 
-theorem inv_safe {cfg : Cfg} {st : State} (hi : Inv cfg st) : Safe cfg st := by
+theorem inv_safe {cfg : Cfg} {n : Nat} {st : State} (hi : Inv cfg n st) : Safe cfg st := by
   have pre : ∀ (c : CProto) (a : AuthClient.Auth), CBase c a →
       ¬ (lBEGIN ∈ sends c.trace ∨ Ev.authenticated ∈ c.trace ∨ c.authenticated = true) := by
     intro c a hc h
@@ -756,5 +827,63 @@ theorem inv_safe {cfg : Cfg} {st : State} (hi : Inv cfg st) : Safe cfg st := by
     refine ⟨fun _ => ⟨hd.okSent, ?_⟩, fun h => ?_, fun _ => hd.bin⟩
     · rw [hd.acc]; simp
     · rw [hd.sAuth] at h; cases h
+
+/-! ## termination: every schedule that keeps delivering reaches the end -/
+
+/-- Every move of the schedule delivers at least one byte (is made on a non-empty queue). -/
+def AllEffective (cfg : Cfg) : State → List Move → Prop
+  | _, [] => True
+  | st, m :: t => effective st m = true ∧ AllEffective cfg (step cfg st m) t
+
+/-- The measure bounds the number of moves that deliver something. -/
+theorem inv_moves_bounded {cfg : Cfg} (hyp : Hyp cfg) : ∀ (ms : List Move) {n : Nat} {st : State},
+    Inv cfg n st → AllEffective cfg st ms → ms.length ≤ n := by
+  intro ms
+  induction ms with
+  | nil => intro n st _ _; exact Nat.zero_le _
+  | cons m t ih =>
+    intro n st hi he
+    obtain ⟨n', hi', _, hlt⟩ := inv_step hyp hi m
+    have := ih hi' he.2
+    have := hlt he.1
+    simp only [List.length_cons]
+    omega
+
+/-- The first `k` moves of an infinite schedule. -/
+def prefixOf (sched : Nat → Move) (k : Nat) : List Move := (List.range k).map sched
+
+theorem prefixOf_succ (sched : Nat → Move) (k : Nat) :
+    prefixOf sched (k + 1) = sched 0 :: prefixOf (fun i => sched (i + 1)) k := by
+  unfold prefixOf
+  rw [List.range_succ_eq_map]
+  simp [List.map_map, Function.comp_def]
+
+/-- FAIR DELIVERY: an infinite schedule that, as long as something is in flight, makes a move that delivers at
+least one byte, reaches a state with nothing in flight after at most `n` moves (`n` the measure of the start). -/
+theorem inv_fair_completes {cfg : Cfg} (hyp : Hyp cfg) : ∀ (n : Nat) (st : State), Inv cfg n st →
+    ∀ sched : Nat → Move,
+      (∀ k, (run cfg st (prefixOf sched k)).quiescent = false →
+        effective (run cfg st (prefixOf sched k)) (sched k) = true) →
+      ∃ k, k ≤ n ∧ (run cfg st (prefixOf sched k)).quiescent = true := by
+  intro n
+  induction n using Nat.strongRecOn with
+  | _ n ih =>
+    intro st hi sched hfair
+    cases hq : st.quiescent with
+    | true => exact ⟨0, Nat.zero_le _, by simpa [prefixOf, run] using hq⟩
+    | false =>
+      have he : effective st (sched 0) = true := by
+        have := hfair 0
+        simpa [prefixOf, run, hq] using this
+      obtain ⟨n', hi', _, hlt⟩ := inv_step hyp hi (sched 0)
+      have hn' := hlt he
+      obtain ⟨k, hk, hkq⟩ := ih n' hn' _ hi' (fun i => sched (i + 1)) (by
+        intro k hnq
+        have := hfair (k + 1)
+        rw [prefixOf_succ] at this
+        exact this hnq)
+      refine ⟨k + 1, by omega, ?_⟩
+      rw [prefixOf_succ]
+      exact hkq
 
 end Txdbus.Handshake2
